@@ -40,6 +40,7 @@ class _Worker:
     def __init__(self):
         self.todo = []     # what the current run's worker will still write
         self.proc = None   # RUNNING | EXIT_OK | EXIT_FAIL | KILLED
+        self.partial = False   # the line of the next report is begun (text without newline is in std.out)
 
 
 class FakeProc:
@@ -94,11 +95,24 @@ class FakeProcLocalBackend(LocalBackend):
     def _write(self, trial_id, reports):
         """a training script also prints other text; some of it is not terminated by a newline
         (print(..., end=""), progress bars), so that a report does not start its line"""
+        w = self.w[trial_id]
         with open(self.trial_path(trial_id) / "std.out", "a") as f:
             for r in reports:
-                f.write(self.NOISE.get(r["v"] % 7, "") + "[%s]: %s\n" % (ST_SAGEMAKER_METRIC_TAG, json.dumps(r)))
+                prefix = "" if w.partial else self.NOISE.get(r["v"] % 7, "")   # a begun line is completed first
+                w.partial = False
+                f.write(prefix + "[%s]: %s\n" % (ST_SAGEMAKER_METRIC_TAG, json.dumps(r)))
                 if r["v"] % 7 == 3:
                     f.write("epoch finished\n")
+
+    def half(self, trial_id):
+        """the worker has written (and flushed) the beginning of the line of its next report: a poll sees an
+        unterminated last line; the line is completed by the next write"""
+        w = self.w.get(trial_id)
+        if w is None or w.proc != RUNNING or not w.todo or w.partial:
+            return
+        with open(self.trial_path(trial_id) / "std.out", "a") as f:
+            f.write("loading batch 3/7 ")
+        w.partial = True
 
     def emit(self, trial_id, k):
         w = self.w.get(trial_id)
@@ -133,6 +147,8 @@ class FakeProcLocalBackend(LocalBackend):
                 self.finish(tid)
             elif kind == "fail":
                 self.fail(tid, k)
+            elif kind == "half":
+                self.half(tid)
             self.calls.append((kind, tid, k))
             self._flush_exits()
 
@@ -193,6 +209,10 @@ class FakeProcLocalBackend(LocalBackend):
         w = self.w.setdefault(trial_id, _Worker())
         w.todo = list(self.next_run.pop(0))
         w.proc = RUNNING
+        if w.partial:      # the killed run left a begun line: the new process starts on a fresh line
+            with open(self.trial_path(trial_id) / "std.out", "a") as f:
+                f.write("\n")
+            w.partial = False
         self.trial_subprocess[trial_id] = FakeProc(self, trial_id)
         self._busy_trial_id_candidates.add(trial_id)
 
